@@ -29,7 +29,9 @@ META = dict(
     rule="case = dependency graph x tasks (optionally with a validated parameter whose annotation builds a mutable object "
          "from the raw value; validate_params on / off) x 1-6 concurrent messages with staggered awaits (see C12), some "
          "writing to what they were given (labels, args, kwargs, the validated argument), many carrying equal raw "
-         "values; non-trivial iff >= 2 "
+         "values, some written on the wire by hand with task ids / task names / label keys / string arguments of unusual "
+         "shapes (differing only by surrounding or inner whitespace, case, Unicode form, a long common prefix; empty); "
+         "non-trivial iff >= 2 "
          "messages and some resolver sub-context (use_cache=False or nested dependency) of an execution starts its "
          "traversal after another execution wrote its Context into the broker's dict; distinct by case content",
     trusted_base=["model: coq/theories/Deps.v part 3 (hand-written from taskiq/receiver/receiver.py run_task and "
